@@ -42,6 +42,7 @@ CheckCase(c) ==
                       IN ObsSeqMatches(c, Truncated(c.reps, c.r, c.bounds, c.bounds[first][2]))
                    THEN Known(id, c.known)
               ELSE CheckRead(id, c, reps, c.fmt \o " cut at " \o c.cutinfo)
+    [] c.ev = "frame" -> Verdict(id, c.what, c.before = c.after)
     [] OTHER -> Verdict(id, "unknown-event", FALSE)
 
 Init == l = 1 /\ LoadCases
